@@ -3,6 +3,7 @@ package props
 import (
 	"fmt"
 	"time"
+	_ "time/tzdata"
 
 	"verif/sim/refimpl"
 	"verif/sim/simrt"
@@ -138,12 +139,50 @@ func cacheKind(c world.PolicyCfg) string {
 	}
 }
 
+// hostZones: the host's local time zone is not UTC everywhere; some zones have daylight-saving
+// transitions (a day that lasts 23 or 25 hours) inside a key's lifetime. Each entry starts the run a
+// few weeks before one of that zone's transitions.
+var hostZones = []struct {
+	name  string
+	epoch time.Time
+}{
+	{"Europe/Berlin", time.Date(2030, 10, 1, 0, 0, 30, 0, time.UTC)},        // falls back on 2030-10-27
+	{"America/Los_Angeles", time.Date(2030, 10, 20, 0, 0, 30, 0, time.UTC)}, // falls back on 2030-11-03
+	{"Australia/Sydney", time.Date(2030, 3, 20, 0, 0, 30, 0, time.UTC)},     // falls back on 2030-04-07
+	{"Europe/Berlin", time.Date(2030, 3, 10, 0, 0, 30, 0, time.UTC)},        // springs forward on 2030-03-31
+	{"Asia/Kolkata", time.Date(2030, 1, 1, 0, 0, 30, 0, time.UTC)},          // no transitions, +05:30
+}
+
+// useHostZone installs one of hostZones as time.Local for the run (a quarter of the runs) and
+// returns the function that restores UTC.
+func useHostZone(t *simrt.Tape, cfg *simrt.Config, faults map[string]int) func() {
+	if t.Choose(4, "host-timezone") != 1 {
+		return func() {}
+	}
+	z := hostZones[t.Choose(len(hostZones), "host-timezone.which")]
+	loc, err := time.LoadLocation(z.name)
+	if err != nil {
+		return func() {}
+	}
+	old := time.Local
+	time.Local = loc
+	cfg.Epoch = z.epoch
+	if faults != nil {
+		faults["host.timezone-with-dst"]++
+	}
+	return func() { time.Local = old }
+}
+
 func runC04(t *simrt.Tape, o Opts) Outcome {
 	cfg := schedCfg(t, o, false)
+	defer useHostZone(t, &cfg, nil)()
 	var w *world.World
 	var st Stats
 	s := simrt.Run(t, cfg, func(s *simrt.Sim) {
 		w = world.New(s, "C04")
+		if time.Local != time.UTC {
+			w.Faults.Fired["host.timezone-not-utc"]++
+		}
 		st.Oracle = map[string]int{}
 		h := &hist{w: w, t: t, parts: world.Partitions[:1+t.Choose(3, "nparts")], maxProc: 2, samePolicyTimes: true}
 		h.gen = world.GenOpts{ShortExpiry: t.Choose(4, "shortexp") != 0, SmallCaps: t.Choose(3, "smallcaps") == 1, AllowTinyLFU: allowTinyLFU}
@@ -348,8 +387,10 @@ func runC05(t *simrt.Tape, o Opts) Outcome {
 			if T, ok := revokedAt(w, rec.IKID, rec.IKCreated); ok && t0 > T+pol.Revoke {
 				held := used[fmt.Sprintf("%d|%s@%d", se.P.ID, rec.IKID, rec.IKCreated)]
 				classes[fmt.Sprintf("ik/%s/held=%v", cacheKind(se.P.Cfg), held)] = true
-				from := maxTime(local(T), laterStampFrom(rec.IKCreated, pol.Precision))
-				if local(t0).After(from.Add(pol.Revoke + opSlack(w))) {
+				// over the bound since the revocation, and a later creation stamp can be created now: a cache
+				// that knows the key is revoked asks for a replacement at every call, so the first call
+				// after the stamp boundary gets one
+				if local(t0).After(local(T).Add(pol.Revoke+opSlack(w))) && local(t0).After(laterStampFrom(rec.IKCreated, pol.Precision).Add(opSlack(w))) {
 					w.Violate("revoked-ik-used", "revoked-IK-used/cache="+cacheKind(se.P.Cfg), "encrypt invoked %v after IK %s@%d was flagged revoked in the metastore (revoke-check interval %v) still produced a record under it; a later stamp %d was available", t0-T, rec.IKID, rec.IKCreated, pol.Revoke, stampNow)
 				} else {
 					count(st.Oracle, "exempt-no-later-stamp")
